@@ -68,7 +68,7 @@ ALPHA_N_EXT = 2.0 ** -30        # joint scaling to a tiny absolute level (dyadic
 NEAR = 1e-6         # relative distance of the "nearly on the cut-off" levels from the level 0.2
 NEAR_LO = 0.2 * (1 - NEAR)
 NEAR_HI = 0.2 * (1 + NEAR)
-NARROW_D = 60       # int16 record = word x 60 (see RESTRICTED note in run_delta)
+NARROW_D = 1000     # int16 record = word x 1000: products of successive steps overflow int16 (repaired by fix 092bcbe)
 B_MIN = 0.06        # smallest exponent exercised (the property allows b > 0.05)
 N_INT = 8           # integer-typed number of cycles
 B_MID = 0.34        # exponent of the container / call-sequence sub-family
